@@ -66,16 +66,17 @@ SPEC = {
         "TestF4HTTPJSON/meta_garbage_first_close_bracket_after_array": 0.002, "TestF4HTTPJSON/meta_garbage_first_close_brace_after_array": 0.002,
         "TestF4HTTPJSON/meta_garbage_first_comma_after_array": 0.0015, "TestF4HTTPJSON/meta_garbage_first_colon_after_array": 0.0015,
         "TestF2Uripost/op_digits": 0.1, "TestF3Raw/op_digits": 0.1, "TestF1Uri/preload": 0.3, "TestF5GrpcJSON/continue_on_error": 0.3,
-        "TestF6Scenario/syntax_hcl": 0.2, "TestF6Scenario/kind_grpc": 0.2, "TestF6Scenario/must_reject_rejected": 0.1,
+        "TestF6Scenario/syntax_hcl": 0.15, "TestF6Scenario/kind_grpc": 0.2, "TestF6Scenario/must_reject_rejected": 0.1,
         "TestF6Scenario/accepted": 0.1, "TestF6Scenario/rejected_at_construction": 0.2,
         # sleep() at index >= 1 of a request list while every step in front of it expands to zero requests (model-level label)
         "TestF6Scenario/list_sleep_after_empty_prefix_http": 0.006, "TestF6Scenario/list_sleep_after_empty_prefix_grpc": 0.003,
         "TestF6Scenario/list_scenario_of_zero_requests": 0.006, "TestF6Scenario/list_negative_count": 0.01, "TestF6Scenario/list_zero_count": 0.01,
         "TestF7Config/must_reject": 0.15, "TestF7Config/accepted": 0.1, "TestF7Config/rejected": 0.3,
-        "TestF8Parsers/index_into_empty_array": 0.02, "TestF8Parsers/target_xpath": 0.08, "TestF8Parsers/target_header": 0.08,
+        "TestF8Parsers/index_into_empty_array": 0.02, "TestF8Parsers/target_xpath": 0.045, "TestF8Parsers/target_header": 0.054,
         "TestF8Parsers/func_ok": 0.02, "TestF8Parsers/func_error": 0.02,
     },
-    "required_classes": (["TestF4HTTPJSON/meta_garbage_first_%s_after_%s" % (f, l) for f in _FIRST for l in ("array", "lines", "pretty")]
+    # (the `_after_pretty` cells occur 2-8 times per quick run: too rare to be required of every seed)
+    "required_classes": (["TestF4HTTPJSON/meta_garbage_first_%s_after_%s" % (f, l) for f in _FIRST for l in ("array", "lines")]
                          + ["TestF5GrpcJSON/meta_garbage_first_" + f for f in _FIRST]
                          + ["TestF4HTTPJSON/meta_garbage_glue_" + g for g in ("none", "space", "tab", "newline", "crlf", "blank_lines")]
                          + ["TestF4HTTPJSON/meta_garbage_on_fresh_line"]),
